@@ -199,6 +199,18 @@ pub fn readonly_ops(n: usize, len: usize, wide: bool) -> Vec<Op> {
     } else {
         ops.push(Op::Cmp(0, 0, None));
     }
+    // partners of a different capacity (every front position, equal contents where they fit)
+    for m in 0..=8usize {
+        if m == n {
+            continue;
+        }
+        for s in 0..m.max(1) {
+            ops.push(Op::CmpCap(m as u32, s as u32, len.min(m) as u32, None));
+            if len > 0 && m > 0 {
+                ops.push(Op::CmpCap(m as u32, s as u32, len.min(m) as u32, Some(Idx::At((s % len.max(1)) as u32))));
+            }
+        }
+    }
     if wide {
         for r in all_bound_pairs(&ix) {
             ops.push(Op::IterScript(IterKind::Range(r), vec![]));
@@ -530,7 +542,7 @@ pub fn c08(n: usize, start: usize, len: usize) -> Vec<Case> {
             }
         }
         for pre in [vec![], vec![Step::Next], vec![Step::NextBack], vec![Step::Next, Step::NextBack, Step::Next]] {
-            for t in [Step::Count, Step::Last, Step::Fold, Step::RevCollect, Step::Dbg, Step::RFold, Step::RevLast] {
+            for t in [Step::Count, Step::Last, Step::Fold, Step::RevCollect, Step::Dbg, Step::RFold, Step::RevLast, Step::Search] {
                 let mut s = pre.clone();
                 s.push(t);
                 s.push(Step::Next);
